@@ -17,6 +17,7 @@ type fgen struct {
 	quant      bool  // allow nested/atLeast/atMost
 	edges      int   // number of edge properties e0..e(edges-1)
 	rows       []int // allowed rows of the atom table (nil = all)
+	allRows    bool  // also draw the table-only rows (compile-only generators)
 	budget     int   // remaining formula nodes (connectives + leaves); <=0 forces single-atom leaves
 	multiPC    bool  // bias leaves towards several constraints (and several quantifiers) in one propertyConstraints map
 	companions bool  // add always-true constraints (minCount 0 / maxCount 9) next to atoms, under the same key
@@ -31,7 +32,11 @@ func (g *fgen) newAtom() *m.Atom {
 	if g.rows != nil {
 		row = g.rows[rapid.IntRange(0, len(g.rows)-1).Draw(g.t, "row")]
 	} else {
-		row = rapid.IntRange(0, len(m.AtomTable)-1).Draw(g.t, "row")
+		row = m.DrawableRows[rapid.IntRange(0, len(m.DrawableRows)-1).Draw(g.t, "row")]
+		if g.allRows && rapid.IntRange(0, 3).Draw(g.t, "boundaryRow") == 0 {
+			// compile-only generators also use the rows that cannot take both truth values (empty lists, zero bounds)
+			row = rapid.IntRange(0, len(m.AtomTable)-1).Draw(g.t, "anyRow")
+		}
 	}
 	id := len(g.atoms)
 	a := &m.Atom{ID: id, Row: row, Prop: fmt.Sprintf("p%d", id)}
